@@ -72,6 +72,19 @@ pub fn large_inputs(tier: &str) -> Vec<Input> {
         v.push(Input { name: format!("two-components22/{w}"), g: from_edges(n, false, &two, weighted), weighted });
         v.push(Input { name: format!("grid4x6/{w}"), g: from_edges(24, false, &grid, weighted), weighted });
     }
+    // zero-weight edges (legal: non-negative): equal distances along a path, ties everywhere
+    for directed in [false, true] {
+        let n = 24;
+        let es = gnp_edges(n, 0.2, directed, 77);
+        let mut g: Graph<i32, ()> = Graph::new(if directed { GraphSpecs::directed() } else { GraphSpecs::undirected() });
+        for i in (0..n).rev() {
+            g.add_node(Node::from_name(i));
+        }
+        for &(u, v) in &es {
+            g.add_edge(Arc::new(Edge { u, v, weight: ((u * 7 + v * 13) % 3) as f64, attributes: None })).expect("c07 input");
+        }
+        v.push(Input { name: format!("zero-weights24/{}", if directed { "directed" } else { "undirected" }), g, weighted: true });
+    }
     // inputs on which calls FAIL: a negative edge (ContradictoryPaths from every source that reaches it) and, in the
     // calls below, an unknown source name next to it - which error comes back must not depend on the schedule either
     {
